@@ -351,7 +351,20 @@ def shard(ctx: Ctx) -> None:
                 _try(ctx, c)
                 stt.case(c, _boundary(c), ["enum:none-patterns"])
                 k += 1
-        stt.exhaustive_domains["enum members + all {None,0,-7} array patterns up to length 6"] = k
+        # every small value of the id fields (a value that happens to equal a length or a type code must not matter)
+        for v in range(0, 301):
+            for c in (
+                {"dir": "host", "cls": "InitNewAppMessage", "fields": {"app_id": v, "max_qubits": v % 256}},
+                {"dir": "host", "cls": "InitNewAppMessage", "fields": {"app_id": v, "max_qubits": 5}},
+                {"dir": "host", "cls": "StopAppMessage", "fields": {"app_id": v}},
+                {"dir": "host", "cls": "OpenEPRSocketMessage", "fields": {"app_id": v, "epr_socket_id": 0, "remote_node_id": 1, "remote_epr_socket_id": 0, "min_fidelity": 100}},
+                {"dir": "host", "cls": "OpenEPRSocketMessage", "fields": {"app_id": 1, "epr_socket_id": v, "remote_node_id": v, "remote_epr_socket_id": v, "min_fidelity": v % 256}},
+                {"dir": "return", "cls": "MsgDoneMessage", "fields": {"msg_id": v}},
+                {"dir": "return", "cls": "ReturnRegMessage", "fields": {"register": "R%d" % (v % 16), "value": v}},
+            ):
+                _try(ctx, c)
+                k += 1
+        stt.exhaustive_domains["enum members + all {None,0,-7} array patterns up to length 6 + id fields 0..300"] = k
 
 
 def _try(ctx, case):
